@@ -575,7 +575,12 @@ impl<Left: Executor, Right: Executor> MergeJoin<Left, Right> {
 
     fn compare_keys(&self, left_keys: &[DataType], right_keys: &[DataType]) -> Ordering {
         for (l, r) in left_keys.iter().zip(right_keys.iter()) {
-            if matches!(l, DataType::Null) || matches!(r, DataType::Null) {
+            // A NULL key matches nothing: step over the row that carries it. (Answering Greater
+            // for a NULL on the left would drain the whole right input instead.)
+            if matches!(l, DataType::Null) {
+                return Ordering::Less;
+            }
+            if matches!(r, DataType::Null) {
                 return Ordering::Greater;
             }
             match l.partial_cmp(r) {
